@@ -6,11 +6,11 @@ Line protocol for C10 (name-keyed access = positional access, whatever the looku
   chems <id>|<cas>|<n1>,<n2>,…  …      new CompiledChemicals           → ok name=pos … | err=…
   alias <c> <id> <alias>               set_alias                        → ok <pos> | err=…
   group <c> <name> <ids|-> <comp|->    define_group (molar composition) → ok <positions> | err=…
-  cix <c>                              new single-phase indexer         → ok
+  cix <c> [<phase>]                    new single-phase indexer (phase l by default) → ok
   mix <c> <phases>                     new multi-phase indexer          → ok <sorted phases>
   get <ix> <key>                       indexer[key]                     → s:… | v:… | m:… | err=…
   set <ix> <key> <data>                indexer[key] = data              → ok m:<all data> | err=…
-  copylike <l> <r> / mixfrom <l> <r>   cross-package transfer           → ok m:<all data of l> | err=…
+  copylike <l> <r> / mixfrom <l> <r>   l.copy_like(r) / l.mix_from([l, r])  → ok <phase(s) of l> m:<all data of l> | err=…
 
 Names are percent-encoded by the adapter (no space , | ( ) [ ] * : ; =).  Key syntax:
 `*` ellipsis, `name`, `(a,b,(c,d),[e])` tuple, `[a,b]` list.  Data: `s:<rat>`, `v:<r,…>`, `m:`.
@@ -72,7 +72,11 @@ def parseOp (line : String) : Option Op :=
   | ["group", c, name, ids, comp] => do
     let comp ← if comp == "-" then some none else (parseRats comp).map some
     some (.group (← c.toNat?) name (splitComma (dash ids)) comp)
-  | ["cix", c] => do some (.newChemIx (← c.toNat?))
+  | ["cix", c] => do some (.newChemIx (← c.toNat?) 'l')
+  | ["cix", c, ph] => do
+    match ph.toList with
+    | [ch] => some (.newChemIx (← c.toNat?) ch)
+    | _ => none
   | ["mix", c, ps] => do some (.newMatIx (← c.toNat?) (dash ps).toList)
   | ["get", i, key] => do some (.get (← i.toNat?) (← parseKey key))
   | ["set", i, key, d] => do some (.set (← i.toNat?) (← parseKey key) (← parseData d))
@@ -111,6 +115,9 @@ def showOut (op : Op) : Out → String
   | .phases ps => "ok " ++ String.ofList ps
   | .val v => showVal v
   | .data rows => "ok " ++ showVal (.mat rows)
+  | .state ix =>
+    "ok " ++ (match ix.phases with | some ps => String.ofList ps | none => String.ofList [ix.phase]) ++ " "
+      ++ showVal (.mat ix.data)
   | .err e => "err=" ++ e.toString
 
 def step (st : St) (line : String) : St × String :=
